@@ -60,6 +60,19 @@ func (*Resolver).VisitConstDecl [C04, C10]
 // Module.PublicDecls is what an importer can see (ast.IterateImportedDecls reads nothing else). A declaration visitor
 // changes at most the entry of the declaration's own name, only for a declaration marked public, never overwrites an
 // entry, and the entry it makes is the declaration itself.
+// importing: a listed name that is not in the module's export table (IterateImportedDecls hands nil) is reported;
+// a name that exists already is reported as well
+func (*Resolver).VisitImportStmt$2 [C10]
+  requires r != nil && r.Module != nil && r.Module.Ast != nil && r.panicMode != nil && stmt != nil
+  calls err when decl == nil
+  ensures decl == nil ==> r.Module.Ast.Faulty
+  ensures result
+func (*Resolver).VisitImportStmt$1 [C10]
+  requires wfR(r) && stmt != nil
+  calls InsertDecl when true
+  callsite InsertDecl requires arg1 == decl.Name() && arg2 == decl
+  calls err when existed
+  ensures existed ==> r.Module.Ast.Faulty
 func (*Resolver).VisitStructDecl [C10]
   requires wfR(r) && decl != nil && r.Module.PublicDecls != nil
   at LP before call InsertDecl
